@@ -105,6 +105,22 @@ Lex(T) ==
 -----------------------------------------------------------------------------
 (* Layer 2: Parse / WellFormed *)
 
+(* DictLoader path resolution: a file reference is resolved relative to the directory of the file the tag is
+   written in (posixpath.normpath(join(dirname(parent), name))); paths are sequences of components *)
+SplitSlash(s) == LET r == FoldLeft(LAMBDA a, c : IF c = 47 THEN [done |-> Append(a.done, a.cur), cur |-> <<>>]
+                                                  ELSE [a EXCEPT !.cur = Append(@, c)],
+                                   [done |-> <<>>, cur |-> <<>>], s)
+                 IN Append(r.done, r.cur)
+NormPath(comps) == FoldLeft(LAMBDA a, c : IF c = <<>> \/ c = <<46>> THEN a
+                                          ELSE IF c = <<46, 46>> /\ a # <<>> /\ a[Len(a)] # <<46, 46>> THEN SubSeq(a, 1, Len(a) - 1)
+                                          ELSE Append(a, c),
+                            <<>>, comps)
+ResolveRef(dir, paths, ref) ==
+    IF ref # <<>> /\ ref[1] = 47 THEN "?"
+    ELSE LET tgt == NormPath(dir \o SplitSlash(ref)) IN
+         IF \E f \in DOMAIN paths : paths[f] = tgt THEN CHOOSE f \in DOMAIN paths : paths[f] = tgt ELSE "?"
+FlatPaths == [main |-> <<Pool.main>>, base |-> <<Pool.base>>, inc |-> <<Pool.inc>>]
+
 Allowed(o) == CASE o = "else" -> {"if", "for", "while", "try"}
                 [] o = "elif" -> {"if"}
                 [] OTHER -> {"try"}
@@ -163,7 +179,7 @@ ParseBlockTok(p, tk) ==
     ELSE IF o \in {"extends", "include"} THEN
         IF StripQ(sfx) = <<>> THEN Err(p, span)
         ELSE IF o = "extends" /\ depth > 1 THEN AddNode(MarkUn(p, TRUE, "nested-extends"), [k |-> "py"])
-        ELSE AddNode(p, [k |-> o, file |-> NameOf(Pool, StripQ(sfx))])
+        ELSE AddNode(p, [k |-> o, file |-> ResolveRef(p.dir, p.paths, StripQ(sfx))])
     ELSE IF o = "set" THEN
         IF sfx = <<>> THEN Err(p, span)
         ELSE AddNode(MarkUn(p, arg \notin SetStmts, "python"), [k |-> "set", e |-> arg])
@@ -214,12 +230,14 @@ RootFrame == [op |-> "root", arg |-> "", sfx |-> <<>>, line |-> 0, parts |-> <<>
 (* Parse(T, ws) = [ok, lines (acceptable ParseError lines), body, un, ae, soft, xb]
    xb: some break / continue binds to a loop outside the named block it is written in
    soft: the error is raised at the end of the text (unterminated tag, missing end) - more text could repair it *)
-Parse(T, ws) ==
+ParseAt(T, ws, dir, paths) ==
     LET lx == Lex(T)
-        p0 == [st |-> <<RootFrame>>, err |-> {}, un |-> "", ws |-> ws, ae |-> "unset", soft |-> FALSE, xb |-> FALSE]
+        p0 == [dir |-> dir, paths |-> paths, st |-> <<RootFrame>>, err |-> {}, un |-> "", ws |-> ws, ae |-> "unset", soft |-> FALSE, xb |-> FALSE]
         p1 == FoldLeft(ParseTok, p0, lx.tks)
         p == IF p1.err = {} /\ Len(p1.st) > 1 THEN [Err(p1, p1.st[2].line..lx.nlines) EXCEPT !.soft = TRUE] ELSE p1
     IN [ok |-> p.err = {}, lines |-> p.err, body |-> p.st[1].cur, un |-> p.un, ae |-> p.ae, soft |-> p.soft, xb |-> p.xb]
+
+Parse(T, ws) == ParseAt(T, ws, <<>>, FlatPaths)
 
 -----------------------------------------------------------------------------
 (* Layer 3: Eval *)
@@ -431,7 +449,9 @@ Run(src, cfg) ==
         ws0 == IF cfg.ws = "default" THEN "all" ELSE cfg.ws
         (* an explicit record: TLC evaluates each field once (a function constructor [f \in S |-> ..] is
            re-evaluated at every application) *)
-        P == [main |-> Parse(src.main, ws0), base |-> Parse(src.base, ws0), inc |-> Parse(src.inc, ws0)]
+        DirOf(f) == SubSeq(cfg.paths[f], 1, Len(cfg.paths[f]) - 1)
+        P == [main |-> ParseAt(src.main, ws0, DirOf("main"), cfg.paths), base |-> ParseAt(src.base, ws0, DirOf("base"), cfg.paths),
+              inc |-> ParseAt(src.inc, ws0, DirOf("inc"), cfg.paths)]
         Refs(f) == IF f \in names /\ P[f].ok THEN RefsIn(P[f].body, {"include", "extends"}) ELSE {}
         R1 == {"main"} \cup Refs("main")
         R2 == R1 \cup UNION {Refs(f) : f \in R1}
@@ -501,7 +521,17 @@ Library(n) ==
                    inc  |-> Render(<<"nl", "nl", "if_t", "nl">>)]
       [] n = 5 -> [base |-> Render(<<"apply_wrap", "block_p", "e_s", "end", "end", "ae_x">>),
                    inc  |-> Render(<<"block_p", "raw_s", "end", "for_y", "e_y", "end">>)]
+      [] n = 6 -> (* directory layout: a/b/main extends "../inc" (a/inc), which extends "base" = a/base; decoys a/b/base, base *)
+                  [base |-> Render(<<"a", "block_p", "b_", "end", "block_q", "e_s", "end">>),
+                   inc  |-> Render(<<"ext_base", "block_p", "e_n", "end">>)]
       [] OTHER -> [base |-> <<>>, inc |-> <<>>]
+
+(* physical layout of the loader: logical file -> path; decoys exist in the loader but are never the right target *)
+Layout(n) == IF n = 6 THEN [main |-> <<Cps("a"), Cps("b_"), Pool.main>>, inc |-> <<Cps("a"), Pool.inc>>, base |-> <<Cps("a"), Pool.base>>]
+             ELSE FlatPaths
+Decoys(n) == IF n = 6 THEN <<[path |-> <<Cps("a"), Cps("b_"), Pool.base>>, text |-> Render(<<"lt", "block_p", "end", "block_q", "end">>)],
+                             [path |-> <<Pool.base>>, text |-> Render(<<"amp", "block_p", "end">>)]>>
+             ELSE <<>>
 
 DefaultS == <<60, 38, 97, 34, 39, 62>>     \* <&a"'>
 SAlpha == {60, 62, 38, 34, 39, 97}
@@ -544,8 +574,8 @@ Family(f) ==
              3, {0}, {"xhtml_escape"}, {"all"}, {DefaultS}, <<>>)
       [] f = "loader" ->    \* extends / block / include through the loader, per-file settings
            F({"a", "e_s", "ext_base", "inc_inc", "inc_inc_sq", "inc_base", "block_p", "block_q", "end", "ae_none", "ae_x", "for_x",
-              "ws_oneline", "sp_nl_sp"},
-             2, {1, 2, 3, 4, 5}, AEboth, {"single"}, {DefaultS}, <<>>)
+              "ws_oneline", "sp_nl_sp", "ext_up_inc"},
+             2, {1, 2, 3, 4, 5, 6}, AEboth, {"single"}, {DefaultS}, <<>>)
       [] f = "ws" ->        \* whitespace filtering per text node and whitespace directives
            F({"a", "sp", "nl", "tab", "sp_nl_sp", "a_sp_sp_a", "cmt", "esc_expr", "ws_single", "ws_oneline"},
              3, {0}, {"xhtml_escape"}, {"default", "oneline"}, {DefaultS}, <<>>)
@@ -576,7 +606,8 @@ InitWith(c, s) ==
 
 InitState ==
     \E f \in Fams : \E ae \in Family(f).aes, ws \in Family(f).wss, sv \in Family(f).svals, lib \in Family(f).libs :
-        InitWith([fam |-> f, ae |-> ae, ws |-> ws, sval |-> sv, bval |-> DefaultB, oval |-> DefaultO, fuel |-> Fuel, lib |-> lib],
+        InitWith([fam |-> f, ae |-> ae, ws |-> ws, sval |-> sv, bval |-> DefaultB, oval |-> DefaultO, fuel |-> Fuel, lib |-> lib,
+                  paths |-> Layout(lib), decoys |-> Decoys(lib)],
                  [main |-> Render(Family(f).pre), base |-> Library(lib).base, inc |-> Library(lib).inc])
 
 AddFree(t) ==
